@@ -78,3 +78,59 @@ def shifted_sum(w0, p0, w1, p1, c):
     loop(0, inv=lambda it: forall(0, it, lambda j: p1[j] == p0[j] + (j + 1) * c))
     for j in range(len(w0)):
         pass
+
+
+# --------------------------------------------------------------------------- C02: from "no blocking pair" of the
+# deferred-acceptance loop (list positions, preference values) to durations and start offsets
+
+@spec
+def gs_holds(new, old, M, s):
+    """Storm s currently holds a rise: the last candidate it proposed to (same as classify.gs_matched)."""
+    return len(new[s]) < len(old[s]) and old[s][len(new[s])] in M and M[old[s][len(new[s])]] == s
+
+
+@spec
+def gap_of(ri, ji):
+    return abs((ri[1] - ri[0]) - (ji[1] - ji[0] - 1))
+
+
+@lemma(args={"ri": "list[tuple[int,int]]", "ji": "list[tuple[int,int]]", "ur": "list[tuple[int,int]]", "uj": "list[tuple[int,int]]",
+             "old": "dict[int,list[int]]", "new": "dict[int,list[int]]", "M": "dict[int,int]",
+             "pref": "dict[int,dict[int,real]]", "gap": "dict[tuple[int,int],real]"})
+def blocking_translation(ri, ji, ur, uj, old, new, M, pref, gap):
+    """`gap` is the table of signed duration differences (classify.disambiguate_matching's duration_differences).
+    If the candidate lists are sorted by duration gap (best last), preferences are -|start offset|, the matching M
+    is stable in find_stable_matching's sense and (ur, uj) is M read back, then no input pair (ri[k], ji[k]) blocks the
+    output in the property's sense."""
+    requires(len(ri) == len(ji) and len(ur) == len(uj))
+    # every candidate pair is on its storm's list; its gap is tabulated; its rise ranks its storm
+    requires(forall(0, len(ri), lambda k: ri[k][0] in old and exists(0, len(old[ri[k][0]]), lambda p:
+                                                                 old[ri[k][0]][p] == ji[k][0])))
+    requires(forall(0, len(ri), lambda k: (ri[k][0], ji[k][0]) in gap and abs(gap[(ri[k][0], ji[k][0])]) == gap_of(ri[k], ji[k])))
+    requires(forall(0, len(ri), lambda k: ji[k][0] in pref and ri[k][0] in pref[ji[k][0]]
+                    and pref[ji[k][0]][ri[k][0]] == -abs(ji[k][0] - ri[k][0])))
+    # lists sorted: the gap does not increase along a list
+    requires(forall_int(lambda s: implies(s in old, forall(0, len(old[s]), lambda p: forall(0, p, lambda p0:
+             abs(gap[(s, old[s][p0])]) >= abs(gap[(s, old[s][p])]))))))
+    # the matching: lists only shrink from the end; a matched rise is the last one its storm proposed to; stability
+    requires(forall_int(lambda s: implies(s in old, s in new and len(new[s]) <= len(old[s]))))
+    requires(forall_int(lambda j: implies(j in M, M[j] in old and len(new[M[j]]) < len(old[M[j]])
+                                          and old[M[j]][len(new[M[j]])] == j)))
+    requires(forall_int(lambda s, p: implies(
+        s in old and 0 <= p and p < len(old[s]),
+        not (not (old[s][p] in M and M[old[s][p]] == s)
+             and (not gs_holds(new, old, M, s) or p > len(new[s]))
+             and (old[s][p] not in M or pref[old[s][p]][s] > pref[old[s][p]][M[old[s][p]]])))))
+    # the output is M read back: every output pair is an input pair, matched by M; every matched rise is output
+    requires(forall(0, len(ur), lambda q: uj[q][0] in M and M[uj[q][0]] == ur[q][0]
+                    and exists(0, len(ri), lambda k: ur[q] == ri[k] and uj[q] == ji[k])))
+    requires(forall_int(lambda j: implies(j in M, exists(0, len(ur), lambda q: uj[q][0] == j and ur[q][0] == M[j]))))
+    # intervals are determined by their start
+    requires(forall(0, len(ri), lambda a: forall(0, len(ri), lambda b: implies(ri[a][0] == ri[b][0], ri[a][1] == ri[b][1])
+                                                 and implies(ji[a][0] == ji[b][0], ji[a][1] == ji[b][1]))))
+    ensures(forall(0, len(ri), lambda k:
+            exists(0, len(ur), lambda q: ur[q] == ri[k] and uj[q] == ji[k])
+            or not (forall(0, len(ur), lambda q: implies(ur[q][0] == ri[k][0], gap_of(ri[k], ji[k]) < gap_of(ur[q], uj[q])))
+                    and forall(0, len(ur), lambda q: implies(uj[q][0] == ji[k][0],
+                                                             abs(ji[k][0] - ri[k][0]) < abs(uj[q][0] - ur[q][0]))))))
+    pass
